@@ -248,9 +248,11 @@ def configs(tier):
         if a is not None:
             c["a"], c["b"] = a, b
         out.append((c, D))
-    def esc(d, lmax, version, nref, D, s, automatic=False, single=False, a=None, b=None):
+    def esc(d, lmax, version, nref, D, s, automatic=False, single=False, a=None, b=None, dimsets=None):
         c = {"strategy": "es", "d": d, "lmin": 1, "lmax": lmax, "version": version, "nref": nref, "automatic": automatic,
              "single_dim": single, "s": s, "special": d < 3}
+        if dimsets:
+            c["single_dimsets"] = dimsets
         if a is not None:
             c["a"], c["b"] = a, b
         out.append((c, D))
@@ -269,7 +271,7 @@ def configs(tier):
         esc(2, 2, 0, 1, 2, 1, automatic=True)
         esc(2, 2, 0, 1, 2, 1, single=True)
         # single-dimension mode with TWO areas per round (a multi-dimensional split and an extend in the same round, either order)
-        esc(2, 2, 0, 1, 2, 2, single=True)
+        esc(2, 2, 0, 1, 2, 2, single=True, dimsets=[[0, 1]])
         esc(2, 2, 0, 1, 2, 1, a=[-1.0, 2.0], b=[3.0, 4.0])
         cellc(2, 1, 3, 1)
         cellc(2, 1, 2, 2)
